@@ -166,8 +166,12 @@ func vhLevelArg() (arg any, mask logLevels, usable bool) {
 		v := nondetUint16()
 		return LogLevel(v), logLevels(v), true
 	case 1:
-		v := nondetUint16()
-		return int(v), logLevels(v), true
+		// any int: values outside the 16 bits of the level set select nothing
+		v := nondetInt()
+		if v < 0 || v > 65535 {
+			return v, 0, false
+		}
+		return v, logLevels(v), true
 	case 3:
 		// an unknown name, nil or a value of an unsupported type selects no
 		// level at all: the call must neither set nor clear anything
@@ -315,6 +319,12 @@ func VH_C18_Text(p []int) {
 			if cfg.typ == list {
 				verifAssert(s.Delimiter() == ";", "delimiter-rune")
 			}
+			// a value that is neither text nor rune nor nil is no instruction at all
+			s.SetDelimiter(5)
+			s.SetDelimiter(3.5)
+			if cfg.typ == list {
+				verifAssert(s.Delimiter() == ";", "delimiter-unsupported-type-ignored")
+			}
 			switch nondetChoice(3) {
 			case 0:
 				s.SetDelimiter("")
@@ -394,6 +404,8 @@ func VH_C18_Encap(p []int) {
 	before = len(cfg.enc)
 	set([]string{})
 	verifAssert(len(cfg.enc) == before, "empty-set-adds-nothing")
+	set([]string{"x", "y", "z"})
+	verifAssert(len(cfg.enc) == before, "three-characters-are-no-pair")
 	set()
 	verifAssert(len(cfg.enc) == 0, "cleared")
 	verifAssert(!isEncap(), "IsEncap-cleared")
